@@ -20,8 +20,20 @@
     which is what pathlib yields for a *clean* base (no trailing or doubled slash, no `.`
     component): `pathClean`; everything else is outside the modelled domain (driver rejects).
     Environment values are ASCII (`str.strip()` / `str.lower()` on non-ASCII text: outside).
-  * Platform: the XDG class and its macOS subclass (different default for the common
-    directory). Windows (`;` separator, `ALLUSERSPROFILE`, ntpath) and Android are not modelled.
+  * Platform (`pypyr.platform.get_platform_dir_finder`): the Android test comes FIRST, on every
+    OS — `$ANDROID_DATA == '/data'` and `$ANDROID_ROOT == '/system'` select the `Android` finder,
+    whose constructor needs the app folder (`Env.androidDir`: what `_get_android_dir` finds
+    through jnius or the `sys.path` scan; `none` = `OSError("Cannot find path to android app
+    folder")`, which escapes `init()`) — an environment that passes this test declares the platform
+    to be Android and is outside the domain the property is judged on; otherwise `sys.platform` picks `Windows` (`;` separator,
+    common default `$ALLUSERSPROFILE` or `C:/ProgramData`), `MacOs` or `Xdg`. Paths are joined
+    the posix way on every platform (the Windows branch is tied on a posix host with
+    `sys.platform` / `os.pathsep` patched: ntpath is not modelled).
+  * What a loader can do besides returning a payload: `Payload.unreadable` (the file is there but
+    `open` raises an `OSError` — a directory, a component that is a file, a symlink loop, no
+    permission: treated exactly like an absent file), `Payload.parseError exc` (ruamel / tomllib /
+    the decoder raise `exc`, which is NOT a `ConfigError` and is not caught), `Payload.toolNotTable`
+    (`pyproject.toml` whose top-level `tool` is a truthy non-table: `tool.get` → AttributeError).
   * Not modelled: `load_yaml` opens the file with the *current* `default_encoding`, so a
     lower-precedence file (or `$PYPYR_ENCODING`) can change how later files are decoded. The
     model assumes every file decodes to the same payload under every encoding in play.
@@ -77,16 +89,21 @@ def defaultsTable : List (String × DefaultSrc) :=
 
 /-! ## Environment -/
 
+/-- `sys.platform` as far as `get_platform_dir_finder` distinguishes it: `win32`, `darwin`, else. -/
 inductive Platform where
-  | posix | macos
+  | posix | macos | windows
   deriving DecidableEq, Repr
 
-/-- The environment variables `Config.__init__`, `Config.init` and `pypyr.platform.Xdg` read.
-    `vars` is `os.environ` restricted to those names; `home` is what `expanduser('~')` yields. -/
+/-- The environment variables `Config.__init__`, `Config.init` and `pypyr.platform` read
+    (`vars` is `os.environ` restricted to those names, `$ANDROID_DATA` / `$ANDROID_ROOT` /
+    `$ALLUSERSPROFILE` included); `home` is what `expanduser('~')` yields; `platform` is
+    `sys.platform`; `androidDir` is what `Android._get_android_dir()` would find (jnius, else the
+    first `sys.path` entry matching `/data/(data|user/N)/<pkg>/files`) — `none`: it raises. -/
 structure Env where
   vars : List (String × String) := []
   home : String := "/home/u"
   platform : Platform := .posix
+  androidDir : Option String := none
   deriving Repr
 
 def envGet? : List (String × String) → String → Option String
@@ -120,6 +137,10 @@ def splitChar (sep : Char) (s : String) : List String :=
 /-- `$PYPYR_SKIP_INIT` is truthy (`cast_str_to_bool(os.getenv('PYPYR_SKIP_INIT', '0'))`). -/
 def Env.skip (e : Env) : Bool := castStrToBool (e.getD "PYPYR_SKIP_INIT" "0")
 
+/-- the first test of `get_platform_dir_finder`, made on every OS -/
+def Env.isAndroid (e : Env) : Bool :=
+  e.get? "ANDROID_DATA" == some "/data" && e.get? "ANDROID_ROOT" == some "/system"
+
 /-! ## State, payloads, errors -/
 
 abbrev Dict := List (Val × Val)
@@ -149,6 +170,13 @@ inductive Payload where
   | none
   | mapping (kvs : Ctx)
   | nonMapping (truthy : Bool)
+  /-- the parser (or the decoder under it) raises `exc`: bad YAML / TOML syntax, a duplicate key,
+      several documents, bytes the encoding cannot decode -/
+  | parseError (exc : String)
+  /-- `pyproject.toml` only: top-level `tool` is truthy and not a table (`tool = 1`) -/
+  | toolNotTable
+  /-- the file is there, `open` raises an `OSError` (`kind`: isDirectory, notADirectory, loop, …) -/
+  | unreadable (kind : String)
   deriving Repr, DecidableEq
 
 /-- Python truthiness of a payload (`if payload:`). -/
@@ -156,20 +184,30 @@ def Payload.truthy : Payload → Bool
   | .none => false
   | .mapping kvs => !kvs.isEmpty
   | .nonMapping t => t
+  | _ => false
 
 inductive CfgErr where
   | notFound (path : String)            -- ConfigError: Could not open config file at {path}.
   | notMapping (path : String)          -- ConfigError: Config file {path} should be a mapping …
   | unknownProps (keys : List String)   -- ConfigError: Unexpected config props: {…}
-  | dictUpdate (prop : String)          -- TypeError out of `dict.update(<not a mapping>)`
+  | dictUpdate (prop : String) (exc : String)  -- TypeError / ValueError out of `dict.update(<value>)`
+  | parse (path : String) (exc : String)       -- whatever the parser raised, uncaught
+  | toolNotTable                               -- AttributeError: '…' object has no attribute 'get'
+  | androidDir                                 -- OSError: Cannot find path to android app folder
   deriving Repr, DecidableEq
 
 /-- `type(e).__name__` of the exception. -/
 def CfgErr.name : CfgErr → String
   | .notFound _ | .notMapping _ | .unknownProps _ => "ConfigError"
-  | .dictUpdate _ => "TypeError"
+  | .dictUpdate _ exc => exc
+  | .parse _ exc => exc
+  | .toolNotTable => "AttributeError"
+  | .androidDir => "OSError"
 
-def CfgErr.isConfigError (e : CfgErr) : Bool := e.name == "ConfigError"
+/-- `isinstance(e, pypyr.errors.ConfigError)` -/
+def CfgErr.isConfigError : CfgErr → Bool
+  | .notFound _ | .notMapping _ | .unknownProps _ => true
+  | _ => false
 
 /-- Result of something that mutates the config and may raise: the state afterwards, and the
     exception if one was raised. -/
@@ -184,47 +222,99 @@ def unknownKeys (kvs : Ctx) : List String :=
 /-- `d.update(m)` for a mapping `m`, left to right. -/
 def dictUpdate (d m : Dict) : Dict := m.foldl (fun acc kv => dictSet acc kv.1 kv.2) d
 
-/-- Step 2 of `Config.update`: `for k in keys & dict_props: getattr(self, k).update(input[k])`.
-    A value that is not a mapping makes `dict.update` raise (`TypeError` for None/bool/int/float,
-    which is the modelled part); the dict props before it have been updated, the ones after
-    it not. (The real iteration order over the two-element set is hash-dependent; with a single
-    offending dict prop in the input the order is unobservable.) -/
+/-- one element of the sequence handed to `dict.update(seq)`: it must itself be a sequence of
+    length 2 (a 2-list / 2-tuple, a 2-character string, a 2-key mapping — its keys); a sequence of
+    another length is a `ValueError`, a non-iterable a `TypeError`. -/
+def seqPair : Val → Except String (Val × Val)
+  | .list [k, v] => .ok (k, v)
+  | .tuple [k, v] => .ok (k, v)
+  | .list _ => .error "ValueError"
+  | .tuple _ => .error "ValueError"
+  | .str s =>
+    match s.toList with
+    | [a, b] => .ok (.str (String.ofList [a]), .str (String.ofList [b]))
+    | _ => .error "ValueError"
+  | .dict [(k1, _), (k2, _)] => .ok (k1, k2)
+  | .dict _ => .error "ValueError"
+  | _ => .error "TypeError"
+
+/-- `dict.update(seq)`, element by element: what was set before the offending element stays set -/
+def updateSeq : Dict → List Val → Dict × Option String
+  | d, [] => (d, none)
+  | d, x :: xs =>
+    match seqPair x with
+    | .ok (k, v) => updateSeq (dictSet d k v) xs
+    | .error exc => (d, some exc)
+
+/-- `d.update(value)` for whatever a file gives as the value of `vars` / `shortcuts`: a mapping is
+    merged; a list is taken as a sequence of pairs (`vars: [[a, 1]]` is accepted); a string is
+    iterated character by character (`""` changes nothing, anything else is a `ValueError` at its
+    first character); `None`, a bool, a number: `TypeError`. -/
+def dictUpdateVal (d : Dict) : Val → Dict × Option String
+  | .dict m => (dictUpdate d m, none)
+  | .list xs => updateSeq d xs
+  | .tuple xs => updateSeq d xs
+  | .str s => if s.isEmpty then (d, none) else (d, some "ValueError")
+  | _ => (d, some "TypeError")
+
+/-- Step 2 of `Config.update`: `for k in keys & dict_props: getattr(self, k).update(input[k])`, in
+    the order of the list. A value `dict.update` rejects raises; the dict props before it have been
+    updated, the offending one up to its offending element, the ones after it not. (`keys &
+    dict_props` is a SET: with both `vars` and `shortcuts` in a file the order is that of their
+    string hashes, i.e. of `$PYTHONHASHSEED` — `updateDictsOrd`.) -/
 def updateDicts : List (String × Dict) → Ctx → List (String × Dict) × Option CfgErr
   | [], _ => ([], none)
   | (n, d) :: rest, kvs =>
     match Ctx.get? kvs n with
     | none => let r := updateDicts rest kvs; ((n, d) :: r.1, r.2)
-    | some (.dict m) => let r := updateDicts rest kvs; ((n, dictUpdate d m) :: r.1, r.2)
-    | some _ => ((n, d) :: rest, some (.dictUpdate n))
+    | some v =>
+      match dictUpdateVal d v with
+      | (d', none) => let r := updateDicts rest kvs; ((n, d') :: r.1, r.2)
+      | (d', some exc) => ((n, d') :: rest, some (.dictUpdate n exc))
+
+/-- … in either iteration order of the two-element set: `rev = false` is `shortcuts` then `vars`. -/
+def updateDictsOrd (rev : Bool) (ds : List (String × Dict)) (kvs : Ctx) : List (String × Dict) × Option CfgErr :=
+  if rev then ((updateDicts ds.reverse kvs).1.reverse, (updateDicts ds.reverse kvs).2) else updateDicts ds kvs
 
 /-- Step 3 of `Config.update`: `for k in keys & scalar_props: setattr(self, k, input[k])`. -/
 def overwriteScalars (sc kvs : Ctx) : Ctx :=
   sc.map fun p => (p.1, (Ctx.get? kvs p.1).getD p.2)
 
 /-- `Config.update(input)`: 1. unknown keys → ConfigError before anything is written;
-    2. dict props are updated key-wise; 3. scalar props are overwritten. -/
-def update (st : ConfigState) (kvs : Ctx) : Outcome :=
+    2. dict props are updated key-wise (in the iteration order `rev` of the set); 3. scalar props are
+    overwritten. -/
+def updateOrd (rev : Bool) (st : ConfigState) (kvs : Ctx) : Outcome :=
   let difference := unknownKeys kvs
   if !difference.isEmpty then (st, some (.unknownProps difference))
   else
-    match updateDicts st.dicts kvs with
+    match updateDictsOrd rev st.dicts kvs with
     | (ds, some e) => ({ st with dicts := ds }, some e)
     | (ds, none) => ({ st with dicts := ds, scalars := overwriteScalars st.scalars kvs }, none)
+
+/-- `Config.update` with the iteration order the rest of the model uses (`shortcuts`, `vars`); by
+    `update_order_irrelevant_*` (Props/C20.lean) the order matters only when a dict prop is rejected. -/
+def update (st : ConfigState) (kvs : Ctx) : Outcome := updateOrd false st kvs
 
 /-! ## `Config.handle_path` -/
 
 /-- `handle_path` after the loader returned `payload`: `None` is no settings; anything else
     must be a Mapping (falsy non-mappings included — the F8 repair); a truthy mapping is merged
     and the path recorded. -/
-def applyFileSt (st : ConfigState) (path : String) (payload : Payload) : Outcome :=
+def applyFileStOrd (rev : Bool) (st : ConfigState) (path : String) (payload : Payload) : Outcome :=
   match payload with
   | .nonMapping _ => (st, some (.notMapping path))
   | .none => (st, none)
+  | .unreadable _ => (st, none)
+  | .parseError exc => (st, some (.parse path exc))
+  | .toolNotTable => (st, some .toolNotTable)
   | .mapping kvs =>
     if kvs.isEmpty then (st, none)
-    else match update st kvs with
+    else match updateOrd rev st kvs with
       | (st', some e) => (st', some e)
       | (st', none) => ({ st' with loaded := st'.loaded ++ [path] }, none)
+
+def applyFileSt (st : ConfigState) (path : String) (payload : Payload) : Outcome :=
+  applyFileStOrd false st path payload
 
 /-- `handle_path` as it was before the repair: `if payload:` came first, so a falsy
     non-mapping never reached the Mapping test. -/
@@ -272,23 +362,62 @@ def pathStr (s : String) : String := if s = "" then "." else s
 /-- `Xdg.get_pypyr_config_file_appended`: `Path(base, 'pypyr', 'config.yaml')`. -/
 def appendCfg (base : String) : String := base ++ "/pypyr/config.yaml"
 
-/-- `Xdg.common_config_base_dir_default` (`MacOs` overrides it). -/
+/-- `Xdg.common_config_base_dir_default` (`MacOs` overrides it; `Windows`: when
+    `$ALLUSERSPROFILE` is unset). -/
 def commonBaseDefault : Platform → String
   | .posix => "/etc/xdg"
   | .macos => "/Library/Application Support"
+  | .windows => "C:/ProgramData"
 
-/-- `Xdg.get_config_user`: `$XDG_CONFIG_HOME`, `~/.config` when unset or blank. -/
+/-- `Windows.__init__`: `os.getenv('ALLUSERSPROFILE', 'C:/ProgramData')`. -/
+def commonBase (e : Env) : String :=
+  match e.platform with
+  | .windows => e.getD "ALLUSERSPROFILE" (commonBaseDefault .windows)
+  | p => commonBaseDefault p
+
+/-- `os.pathsep`. -/
+def pathSep : Platform → Char
+  | .windows => ';'
+  | _ => ':'
+
+/-- `Android.__init__`: `android_dir.joinpath('shared_prefs', app_name, config_file_name)`. -/
+def androidCfg (dir : String) : String := dir ++ "/shared_prefs/pypyr/config.yaml"
+
+/-- Which finder `get_platform_dir_finder` picks. -/
+inductive Finder where
+  | xdg (p : Platform)
+  | android (dir : String)
+  deriving DecidableEq, Repr
+
+/-- `get_platform_dir_finder()` and the finder's constructor: Android first, whatever
+    `sys.platform` is; its constructor raises when the app folder cannot be found. -/
+def platformOf (e : Env) : Except CfgErr Finder :=
+  if e.isAndroid then
+    match e.androidDir with
+    | some d => .ok (.android d)
+    | none => .error .androidDir
+  else .ok (.xdg e.platform)
+
+/-- `get_config_user`: `Xdg`: `$XDG_CONFIG_HOME`, `~/.config` when unset or blank; `Android`: the
+    app's shared_prefs file. -/
 def userConfigPath (e : Env) : String :=
-  let path := e.getD "XDG_CONFIG_HOME" ""
-  let path := if isBlank path then e.home ++ "/.config" else path
-  appendCfg path
+  match platformOf e with
+  | .ok (.android d) => androidCfg d
+  | _ =>
+    let path := e.getD "XDG_CONFIG_HOME" ""
+    let path := if isBlank path then e.home ++ "/.config" else path
+    appendCfg path
 
-/-- `Xdg.get_config_common`: the non-blank entries of `$XDG_CONFIG_DIRS` (default when unset
-    or blank), in the order listed. -/
+/-- `get_config_common`: `Xdg`: the non-blank entries of `$XDG_CONFIG_DIRS` (the platform's default
+    when unset or blank), split on `os.pathsep`, in the order listed; `Android`: the same single
+    file as the user's. -/
 def commonConfigPaths (e : Env) : List String :=
-  let path := e.getD "XDG_CONFIG_DIRS" ""
-  let path := if isBlank path then commonBaseDefault e.platform else path
-  ((splitChar ':' path).filter (fun p => !isBlank p)).map appendCfg
+  match platformOf e with
+  | .ok (.android d) => [androidCfg d]
+  | _ =>
+    let path := e.getD "XDG_CONFIG_DIRS" ""
+    let path := if isBlank path then commonBase e else path
+    ((splitChar (pathSep e.platform) path).filter (fun p => !isBlank p)).map appendCfg
 
 /-- `$PYPYR_CONFIG_GLOBAL` when set and non-empty (`if env_config_path_str:`). -/
 def Env.globalPath? (e : Env) : Option String :=
@@ -313,8 +442,12 @@ def lookOrder (e : Env) : List Look :=
    | some g => [{ path := pathStr g, mustExist := true }]
    | none => xdgLooks e) ++ localLooks e
 
+/-- `init` gets as far as `get_platform_paths` (no `$PYPYR_CONFIG_GLOBAL`) and that raises. -/
+def Env.platformFails (e : Env) : Bool :=
+  e.globalPath?.isNone && (match platformOf e with | .error _ => true | .ok _ => false)
+
 /-- Every file look-up `init` can make, as a function of the environment. -/
-def initOrder (e : Env) : List Look := if e.skip then [] else lookOrder e
+def initOrder (e : Env) : List Look := if e.skip then [] else if e.platformFails then [] else lookOrder e
 
 /-! ## The file system as the loaders see it -/
 
@@ -332,8 +465,16 @@ def Files.get? (fs : Files) (path : String) : Option Payload :=
     `raise_error=True`. -/
 def load (fs : Files) (l : Look) : Except CfgErr Payload :=
   match fs.get? l.path with
+  | some (.unreadable _) => if l.mustExist then .error (.notFound l.path) else .ok .none
   | some p => .ok p
   | none => if l.mustExist then .error (.notFound l.path) else .ok .none
+
+/-- `open(path)` succeeds -/
+def Files.opens (fs : Files) (path : String) : Bool :=
+  match fs.get? path with
+  | some (.unreadable _) => false
+  | some _ => true
+  | none => false
 
 /-- `Config.handle_path(path, handler, raise_not_found)`. -/
 def handlePath (fs : Files) (st : ConfigState) (l : Look) : Outcome :=
@@ -352,6 +493,7 @@ def runLooks (fs : Files) (st : ConfigState) : List Look → Outcome
     `init` raised, if any. -/
 def initSt (e : Env) (fs : Files) : Outcome :=
   if e.skip then ({ defaults e with skipInit := true }, none)
+  else if e.platformFails then (defaults e, some .androidDir)
   else runLooks fs (defaults e) (lookOrder e)
 
 /-- `initConfig : Env → (path ↦ payload) → Except Err ConfigState`. -/
@@ -377,7 +519,9 @@ def consulted (fs : Files) (st : ConfigState) : List Look → List String
     call. With `$PYPYR_SKIP_INIT` the only effect is `_skip_init = True` (never reset afterwards);
     otherwise the look-ups of `lookOrder e` are merged into the object as it is. -/
 def initOn (st : ConfigState) (e : Env) (fs : Files) : Outcome :=
-  if e.skip then ({ st with skipInit := true }, none) else runLooks fs st (lookOrder e)
+  if e.skip then ({ st with skipInit := true }, none)
+  else if e.platformFails then (st, some .androidDir)
+  else runLooks fs st (lookOrder e)
 
 /-- One step of a process's history with `Config` objects. Object `0` is the module singleton
     `pypyr.config.config` (constructed when `pypyr.config` is imported); each step carries the
@@ -425,6 +569,29 @@ def runOps (fs : Files) : Objs → List Op → List StepObs
   | _, [] => []
   | objs, op :: ops => (stepOp fs objs op).2 :: runOps fs (stepOp fs objs op).1 ops
 
+/-! ## `$PYTHONHASHSEED`: the iteration order of `keys & dict_props`
+
+  `rev = false` (the order the definitions above use) is `shortcuts` before `vars`, `rev = true` the
+  other way round. Which one a run gets is a matter of the string hashes of that process. -/
+
+def handlePathOrd (rev : Bool) (fs : Files) (st : ConfigState) (l : Look) : Outcome :=
+  match load fs l with
+  | .error e => (st, some e)
+  | .ok p => applyFileStOrd rev st l.path p
+
+def runLooksOrd (rev : Bool) (fs : Files) (st : ConfigState) : List Look → Outcome
+  | [] => (st, none)
+  | l :: ls =>
+    match handlePathOrd rev fs st l with
+    | (st', some e) => (st', some e)
+    | (st', none) => runLooksOrd rev fs st' ls
+
+/-- `init()` on `st` in a process whose set order is `rev` -/
+def initOnOrd (rev : Bool) (st : ConfigState) (e : Env) (fs : Files) : Outcome :=
+  if e.skip then ({ st with skipInit := true }, none)
+  else if e.platformFails then (st, some .androidDir)
+  else runLooksOrd rev fs st (lookOrder e)
+
 /-! ## Reading a state -/
 
 def ConfigState.scalar? (st : ConfigState) (k : String) : Option Val := Ctx.get? st.scalars k
@@ -446,22 +613,32 @@ def pathClean (s : String) : Bool :=
 
 def asciiStr (s : String) : Bool := s.toList.all (fun c => c.toNat < 128 && c.toNat != 0)
 
-/-- A dict-prop value the model speaks about: a mapping with unique keys, or one of the
-    non-iterables for which `dict.update` raises `TypeError`. -/
+def strKey : Val → Bool
+  | .str _ => true
+  | _ => false
+
+/-- the element of an update sequence is one the model speaks about: a 2-element list with a
+    string key, or something `seqPair` rejects -/
+def seqElemInDomain : Val → Bool
+  | .list [k, _] => strKey k
+  | .list _ => true
+  | .str s => s.length != 2        -- a 2-character string is a pair of 1-character strings: not generated
+  | .none | .bool _ | .int _ | .flt _ _ => true
+  | _ => false
+
+/-- A dict-prop value the model speaks about: a mapping with unique keys, a list of pairs /
+    rejected elements, a string, or one of the non-iterables. -/
 def dictValInDomain : Val → Bool
   | .dict m => decide (m.map (·.1)).Nodup
+  | .list xs => xs.all seqElemInDomain
+  | .str _ => true
   | .none | .bool _ | .int _ | .flt _ _ => true
   | _ => false
 
 def payloadInDomain : Payload → Bool
   | .mapping kvs =>
     decide (kvs.map (·.1)).Nodup &&
-    dictProps.all (fun d => match Ctx.get? kvs d with | some v => dictValInDomain v | none => true) &&
-    -- an offending dict prop only when it is the only dict prop in the file (the iteration
-    -- order over the set `keys & dict_props` is not modelled)
-    ((dictProps.filter (fun d => match Ctx.get? kvs d with
-        | some (.dict _) => false | some _ => true | none => false)).isEmpty ||
-     decide ((dictProps.filter (fun d => (Ctx.get? kvs d).isSome)).length ≤ 1))
+    dictProps.all (fun d => match Ctx.get? kvs d with | some v => dictValInDomain v | none => true)
   | _ => true
 
 end Pypyr.Config
